@@ -115,6 +115,12 @@ chk("C04",
     "stateless explicit enumeration of all bounded inputs x 5 operations x 24 renderer configurations on the instrumented real code; totality oracle with deterministic fuel",
     "DESIGN.md section 6, C04")
 
+chk("C12",
+    "Three exhaustive explorations on the real parser: (a) every ordered pair of bounded use/definition labels (case pairs, multi-character folds, label whitespace incl. line endings, NBSP, escaped brackets) in a document using the label as shortcut, collapsed, full reference and image - resolves iff the reference normal forms are equal and both labels valid; (b) every sequence of up to 4 segments with one use and 1-3 competing definitions (plain, in quote, in list item, nested, two in one paragraph) - the first in source order supplies href/title and is the map's only entry; (c) closure laws on all bounded inputs of four general spaces (every reference node names a map key, keys in normal form, map == fresh Extract over the blocks == streaming pipeline's map).",
+    "Bounded scope (alphabet and lengths in the evidence). Reference normalisation uses a hand-written full-case-folding table for the alphabet's characters (self-tested), not x/text.",
+    "exhaustive enumeration of bounded label pairs, definition placements/orders and inputs; reference-model (spec 6.3 normalisation, first-wins) comparison on the real parser",
+    "DESIGN.md section 6, C12")
+
 # Reasons for properties not (yet) claimed.
 PENDING = {}
 
